@@ -91,7 +91,13 @@ func vfJWTMutations(rt *rapid.T, c vfJWTCfg, now int64, base vfC06Req, tok vfTok
 		kind := rapid.SampledFrom(kinds).Draw(rt, "jwtMut")
 		m := base.clone()
 		t2 := tok.clone()
-		s := tok.String()
+		// a share of the mutations starts from the same token issued with iat in the future (alone
+		// that is left open; together with any other defect the token must be refused)
+		futureIat := vfOneIn(rt, 3, "futureIat")
+		if futureIat {
+			t2.Claims["iat"] = vfTimeLit(rt, now+rapid.SampledFrom([]int64{1, 2, 60, 86400}).Draw(rt, "iatIn"), "any", "iat")
+		}
+		s := t2.String()
 		place := func(s string) { vfPlaceToken(rt, &m, c, s, inCookie) }
 		switch kind {
 		case "flip-header":
@@ -187,6 +193,9 @@ func vfJWTMutations(rt *rapid.T, c vfJWTCfg, now int64, base vfC06Req, tok vfTok
 		}
 		x := vfVariant{Label: "jwt:" + kind, Req: m, Hdr: vfAccept}
 		x.Cred = vfJWTVerdict(&m, c.Alg, c.Secret, c.Cookie, now)
+		if futureIat {
+			x.Label = "jwt:future-iat+" + kind
+		}
 		out = append(out, x)
 	}
 	return out
@@ -229,6 +238,10 @@ func TestVerifC06JWT(t *testing.T) {
 				tok.Secret = vfOtherSecret(rt, c.Secret)
 			}
 		}
+		if baseKind != "valid" && baseKind != "garbage" && vfOneIn(rt, 3, "baseFutureIat") {
+			tok.Claims["iat"] = vfTimeLit(rt, now+rapid.SampledFrom([]int64{1, 60, 86400}).Draw(rt, "baseIatIn"), "any", "iat")
+			baseKind += "+future-iat"
+		}
 		s := tok.String()
 		if baseKind == "garbage" {
 			s = rapid.SampledFrom([]string{"", "abc", "a.b.c", "..", "eyJhbGciOiJIUzI1NiJ9.e30.", "e30.e30.e30"}).Draw(rt, "garbage")
@@ -245,6 +258,9 @@ func TestVerifC06JWT(t *testing.T) {
 		}
 		for i := 1; i < len(vars); i++ {
 			vars[i].Covered = b.Cred == vfAccept && vars[i].Cred == vfReject
+			if strings.HasPrefix(vars[i].Label, "jwt:future-iat+") && vars[i].Cred == vfReject {
+				vf.Class("jwt:future-iat-with-another-defect(must-reject)")
+			}
 		}
 		for _, k := range []string{"exp", "nbf", "iat"} {
 			switch c := tok.Claims[k].(type) {
@@ -832,7 +848,7 @@ func TestVerifC06Signature(t *testing.T) {
 		carrier := vfGenCarrier(rt, vfCarrierOpts{NoBody: noBody})
 		kind := "valid"
 		if rapid.IntRange(0, 9).Draw(rt, "baseInvalid") < 3 {
-			kind = rapid.SampledFrom([]string{"unknown-key", "wrong-secret", "stale", "future"}).Draw(rt, "baseKind")
+			kind = rapid.SampledFrom([]string{"unknown-key", "wrong-secret", "stale", "future", "future-beyond-ttl", "future-beyond-ttl"}).Draw(rt, "baseKind")
 		}
 		presign := rapid.IntRange(0, 2).Draw(rt, "presign") == 0
 		plan, kind := vfGenSigPlan(rt, c, kind, presign)
@@ -859,7 +875,7 @@ func TestVerifC06Signature(t *testing.T) {
 		}
 		// a second, freshly signed request under a changed plan (wrong secret, unknown key, stale)
 		if rapid.IntRange(0, 2).Draw(rt, "resign") == 0 {
-			k2 := rapid.SampledFrom([]string{"unknown-key", "wrong-secret", "stale", "valid"}).Draw(rt, "resignKind")
+			k2 := rapid.SampledFrom([]string{"unknown-key", "wrong-secret", "stale", "valid", "future-beyond-ttl"}).Draw(rt, "resignKind")
 			p2, k2 := vfGenSigPlan(rt, c, k2, presign)
 			if s2, err := vfSignWithRepo(c, p2, carrier, now); err == nil {
 				x := vfVariant{Label: vfSigLabel("resign-"+k2, c, &s2.Req), Req: s2.Req, Hdr: vfAccept, Cred: vfPlanVerdict(c, p2)}
@@ -1105,7 +1121,7 @@ func TestVerifC06Combined(t *testing.T) {
 		if c.Sig != nil {
 			kind := "valid"
 			if vfOneIn(rt, 8, "comboSigInvalid") {
-				kind = rapid.SampledFrom([]string{"unknown-key", "wrong-secret", "stale"}).Draw(rt, "sigKind")
+				kind = rapid.SampledFrom([]string{"unknown-key", "wrong-secret", "stale", "future-beyond-ttl"}).Draw(rt, "sigKind")
 			}
 			plan, _ := vfGenSigPlan(rt, *c.Sig, kind, c.Presign)
 			var err error
@@ -1177,10 +1193,14 @@ func TestVerifC06Combined(t *testing.T) {
 				}
 			case "jwt-flip-sig", "jwt-expired", "jwt-other-secret", "jwt-other-alg":
 				t2 := tok.clone()
+				if vfOneIn(rt, 3, "comboFutureIat") {
+					t2.Claims["iat"] = vfTimeLit(rt, now+rapid.SampledFrom([]int64{1, 60, 86400}).Draw(rt, "comboIatIn"), "any", "iat")
+					vf.Class("combo:jwt-mutation-with-future-iat")
+				}
 				str := ""
 				switch kind {
 				case "jwt-flip-sig":
-					str = vfFlipSeg(rt, tok.String(), 2)
+					str = vfFlipSeg(rt, t2.String(), 2)
 				case "jwt-expired":
 					t2.Claims["exp"] = vfTimeLit(rt, now-rapid.SampledFrom([]int64{2, 3600}).Draw(rt, "comboExpiredBy"), "any", "exp")
 				case "jwt-other-secret":
